@@ -214,6 +214,7 @@ def evaluate(case):
     # ---- classes / non-triviality
     labels = sorted({lab for row in case.get("cls", []) for lab in row})
     res.cls(f"variant={variant}|stride={stride}", f"variant={variant}", f"stride={stride}")
+    res.cls("frame=large(>256px)" if max(H, W) > 256 else "frame=small")
     res.cls(*[f"pt={lab}" for lab in labels])
     if H % stride or W % stride:
         res.cls("size=non-multiple")
@@ -371,9 +372,14 @@ def strategy():
     @st.composite
     def case(draw):
         variant = draw(st.sampled_from(["single", "single", "multi", "multi", "multi", "centroid", "centroid"]))
-        stride = draw(st.sampled_from(STRIDES))
+        # "large": 512..4096 px frames sampled at stride 32/64 (small grids, coordinates of thousands of pixels: the
+        # rounding analysis above is relative, so the same tolerance applies; formulas that expand the square are not)
+        large = draw(st.integers(0, 6)) == 0
+        stride = draw(st.sampled_from([32, 64])) if large else draw(st.sampled_from(STRIDES))
 
         def size():
+            if large:
+                return stride * draw(st.integers(512 // stride, 4096 // stride)) + (draw(st.integers(1, stride - 1)) if draw(st.integers(0, 5)) == 0 else 0)
             if draw(st.integers(0, 99)) < 15:
                 return draw(st.integers(max(8, stride), 96))  # at least one full cell
             return stride * draw(st.integers(max(1, -(-8 // stride)), 96 // stride))
